@@ -45,6 +45,10 @@ CHECKS = {
                 text="Every labelled graph on 4 atoms (quick; plain traversal also on every 5-atom graph) / 5 atoms (thorough), every start atom, direction and bond in both orientations, on Connectivity, Molecule and ConformerEnsemble: traversal yields each other atom of the component once, in non-decreasing true shortest-path distance; with a direction exactly the atoms behind that neighbour; ring iff not a bridge; adjacency queries and bonded valence agree with the bond list. Matching: for every host graph, 8 connected patterns and element assignments over {Unknown,C,N} the returned maps are exactly the brute-force induced embeddings, each once. _node_match/_edge_match: wildcard, reflexivity, element exclusion, NotConnected for all symbolic field values.",
                 note="Selector-bound: the solver enumerates a finite space of small graphs; graphs on 6-40 atoms of the quantifier are not covered. The networkx matcher runs untraced on the concrete cell chosen by the solver (2.5 s/path under the tracer); its node/edge predicates are executed symbolically on their own.",
                 design="3/C15"),
+    "C16": dict(engine="XH+SR", technique="XH: CrossHair symbolic execution of add_implicit_hydrogens with symbolic formal charge, spin and drawing hint (z3 splits on the count formula and placement branches); SR: the real placement code on z3 Real coordinates, QF_NRA queries (nlsat + SMT-core portfolio) with numeric replay",
+                text="Counts (XH): for every centre of groups 13-16, formal charge and spin in [-3,3], hint None/0..4, 0-3 neighbours and first bond type, all paths confirm that only hydrogens are added, existing atoms/bonds/coordinates/charges are untouched, each atom receives its hint or max(0, 4-|4-(VE-q-|s|)|-ceil(bonded valence)) (independent valence table), each new hydrogen is bonded once to that atom at the sum of covalent radii, finite, pointing away from the neighbours' centroid, and a second call on a hint-free molecule adds nothing. Placement (SR): for ALL real coordinates in non-degenerate geometry of 9 chemistries (1/2/3 neighbours, bare atoms; +1..+4 H) the distance (1e-3) and direction clauses hold and no denominator can vanish (unsat).",
+                note="Reals, not floats in SR. rotation_matrix_from_vectors (symbolic arguments) and mean_plane (SVD) are replaced by contracts; non-degeneracy = neighbours off the atom, no collinear pair, three-neighbour centres > 0.1 A out of plane. Zero-order bonds and hints above four substituents are outside. XH part uses one concrete template geometry.",
+                design="3/C16"),
     "C14": dict(engine="XH+SHP", technique="CrossHair symbolic execution of the real ConformerEnsemble/Conformer code on a shape-level numpy model with symbolic extents (n_conformers up to 1000), plus real-numpy content scenarios; z3 decides each path",
                 text="One inductive step from an arbitrary rectangular state: for every constructor branch, each of 17 operations, all n_conformers in [0,1000] (symbolic, linear integer arithmetic over array extents), n_atoms 0..3 and every conformer index, the three parallel arrays keep matching extents and every conformer view reads coordinates and charges. On real numpy (extents <= 3): writes through a conformer change row i only, iteration (nested, interleaved, suspended) visits each conformer once in order, grown ensembles dump and serialise.",
                 note="The shape model (engine/shapenp.py) is validated against numpy on ~10k concrete shape cases per run; array *content* is only checked at concrete small extents; a symbolic conformer index bypasses __getitem__'s match statement (CrossHair artefact) and constructs the Conformer directly.",
